@@ -82,14 +82,14 @@ class VariableAccessTransformer(converter.Base):
     return results
 
   def visit_AugAssign(self, node):
+    # The operand is read like any other expression.
+    node = self.generic_visit(node)
     if isinstance(node.target, ast.Name):
       template = """
         var_ = ag__.ld(var_)
         original
       """
       node = templates.replace(template, var_=node.target, original=node)
-    else:
-      node = self.generic_visit(node)
     return node
 
 
